@@ -271,6 +271,27 @@ VARIANTS += [
 ]
 
 
+# ---- round 5 (DESIGN §18)
+VARIANTS += [
+    V("twin-mult-named-tolerance", ["C03", "C18"], H, "        return sum(abs(node - knot) < 1e-9 for knot in self)", "        tolerance = 1e-9\n        return sum(abs(node - knot) < tolerance for knot in self)", None, None, "absolute tolerance through a local", twin=True),
+    V("unique-isclose", ["C03", "C18"], H, "                if abs(node - knot) < 1e-6:\n                    break", "                if math.isclose(node, knot, abs_tol=1e-6):\n                    break", "TOL-ABSOLUTE", "__get_unique", "isclose keeps its default relative tolerance"),
+    V("twin-fit-rename-weights", ["C06", "C14", "C05"], C, "            weights = np.dot(transmat, oldweights)\n            numerators = np.dot(transmat, numerators)\n            ctrlpoints = [invert(wei) * num for num, wei in zip(numerators, weights)]\n            self.weights = weights\n", "            newweights = np.dot(transmat, oldweights)\n            numerators = np.dot(transmat, numerators)\n            ctrlpoints = [invert(wei) * num for num, wei in zip(numerators, newweights)]\n            self.weights = newweights\n", None, None, "weights renamed consistently", twin=True),
+    V("split-old-weights", ["C07"], C, "                    invert(w) * num for num, w in zip(numerators, newweights)\n", "                    invert(w) * num for num, w in zip(numerators, self.weights)\n", "DEHOMOG-PAIR", "Curve.split", "pieces divided by the weights of the whole curve"),
+    V("twin-split-ifexp", ["C07"], C, "        if nodes is None:\n            nodes = self.knotvector.knots\n        nodes = tuple(nodes)\n        newvectors = self.knotvector.split(nodes)", "        nodes = self.knotvector.knots if nodes is None else nodes\n        nodes = tuple(nodes)\n        newvectors = self.knotvector.split(nodes)", None, None, "default substituted by a conditional expression", twin=True),
+    V("clean-nodes-truthiness", ["C14"], C, "        if nodes is None:\n            nodes = self.knotvector.knots\n        nodes = tuple(set(nodes) - set(self.knotvector.limits))", "        if not nodes:\n            nodes = self.knotvector.knots\n        nodes = tuple(set(nodes) - set(self.knotvector.limits))", "NONE-DEFAULT", "knot_clean", "empty node list cleans every knot"),
+    V("twin-eval-list", ["C01"], C, "        try:\n            nodes = tuple(nodes)\n            onevalue = False", "        try:\n            nodes = list(nodes)\n            onevalue = False", None, None, "materialised as a list", twin=True),
+    V("twin-nodes-tuple-first", ["C12"], H, "        assert len(nodes) >= npts\n        if weights is None:\n            funcvals = eval_spline_nodes(knotvector, nodes, degree)", "        nodes = tuple(nodes)\n        assert len(nodes) >= npts\n        if weights is None:\n            funcvals = eval_spline_nodes(knotvector, nodes, degree)", None, None, "nodes copied into a tuple, order kept", twin=True),
+    V("twin-and-front-slice", ["C17"], H, "        all_knots = tuple(sorted(set(self.knots) & set(other.knots)))", "        knotsa = set(self[self.degree : len(self) - self.degree])\n        knotsb = set(other[other.degree : len(other) - other.degree])\n        all_knots = tuple(sorted(knotsa & knotsb))", None, None, "inner knots sliced from the front", twin=True),
+    V("twin-nan-or-inf", ["C19"], A, "        if not np.isfinite(initparam):\n            return (umin, umax)\n        return [initparam]", "        if np.isnan(initparam) or np.isinf(initparam):\n            return (umin, umax)\n        return [initparam]", None, None, "isnan or isinf", twin=True),
+    V("twin-classes-comprehension", ["C13", "C08"], H, "        classes = [0] * len(allknots)\n        for i, knot in enumerate(allknots):\n            multa = knotvectora.mult(knot)\n            multb = knotvectorb.mult(knot)\n            classes[i] = min(degreea - multa, degreeb - multb)\n", "        classes = [\n            min(degreea - knotvectora.mult(knot), degreeb - knotvectorb.mult(knot))\n            for knot in allknots\n        ]\n", None, None, "continuity classes in a comprehension", twin=True),
+    V("twin-lcm-list", ["C16"], H, "            lcm = Math.lcm(*[Fraction(elem).denominator for elem in line])\n", "            denominators = [Fraction(elem).denominator for elem in line]\n            lcm = Math.lcm(*denominators)\n", None, None, "denominators through a local", twin=True),
+    V("twin-schur-matmul", ["C11"], H, "        LL = np.dot(G, np.dot(GGinv, GT))\n", "        LL = G @ GGinv @ GT\n", None, None, "Schur complement with @", twin=True),
+    V("schur-missing-inverse", ["C11"], H, "        QF = np.dot(GGinv, np.dot(GT, LLinv))\n", "        QF = np.dot(GGinv, np.dot(GT, LL))\n", None, None, "LL in the place of its inverse: dimensionally identical (degree 0), not decided", twin=True),
+    V("gram-not-inverted", ["C11"], H, "            T = np.dot(GGinv, GF)\n            E = FF - np.dot(GF.T, T)\n", "            T = np.dot(GGinv, GF)\n            E = FF - np.dot(GF.T, np.dot(GG, T))\n", "BASIS-HOMOG", "func2func", "a Gram matrix too many in the error"),
+    V("twin-speed-dot", ["C10"], CA, "            abscurve_vals = tuple(np.sqrt(val @ val) for val in curve_vals)", "            abscurve_vals = tuple(np.sqrt(np.dot(val, val)) for val in curve_vals)", None, None, "norm with np.dot", twin=True),
+]
+
+
 def _sources(src_dir: str, v: dict) -> Optional[dict]:
     edits = v.get("edits") or [(v["module"], v["old"], v["new"])]
     out: Dict[str, str] = {}
